@@ -160,6 +160,16 @@ def run_impl(case):
         else:
             raise AssertionError(path)
         return {"items": out}
+    if k == "pickle_int":
+        # the one int opcode of the object's pickle stream, with its argument bytes
+        import pickletools
+        data = pickle.dumps(X.from_ticks(case["t"]), case["proto"])
+        ops = list(pickletools.genops(data))
+        found = [(i, op.name) for i, (op, arg, pos) in enumerate(ops) if op.name in ("INT", "LONG", "BININT", "BININT1", "BININT2", "LONG1", "LONG4")]
+        if len(found) != 1:
+            raise RuntimeError("expected one int opcode, found %r" % (found,))
+        i = found[0][0]
+        return {"bytes": list(data[ops[i][2]:ops[i + 1][2]])}
     if k == "pickle":
         x = X.from_ticks(case["t"])
         if case["proto"] == "deepcopy":
@@ -196,6 +206,8 @@ def to_coq(c, r):
         return "ArrayBytes %s %s %s" % (dt, vf.listc(c["l"]), vf.listc(r["bytes"]))
     if k == "array_items":
         return "ArrayItems %s %s %s" % (dt, vf.listc(c["l"]), vf.listc(r["items"]))
+    if k == "pickle_int":
+        return "PickleInt %s %s" % (vf.zc(c["t"]), vf.listc(r["bytes"]))
     if k == "pickle":
         return "Pickle %s %s %s" % (dt, vf.zc(c["t"]), vf.resc(r))
     raise AssertionError(k)
@@ -241,6 +253,8 @@ def _cases_for_values(vals, rng, heavy):
         if heavy and MIN128 <= t <= MAX128:
             cases.append({"k": "pickle", "dt": rng.random() < 0.5, "t": t,
                           "proto": rng.choice([0, 1, 2, 3, 4, 5, "deepcopy", "copy"])})
+            if rng.random() < 0.5:
+                cases.append({"k": "pickle_int", "dt": rng.random() < 0.5, "t": t, "proto": rng.choice([2, 3, 4, 5])})
     return cases
 
 
